@@ -95,7 +95,15 @@ func init() {
 	// DirH.tla: directory handles and by-name listings
 	modules["dirh"] = func(kind string, o *Opts) engine.Adapter {
 		cfg := fsad.DConfig{AdapterName: kind, PropList: o.attr("list", "C16"), PropClosed: o.attr("closed", "C17"), PropIO: o.attr("io", "C02")}
-		cfg.MkDirFS = fsad.Writable(mkfs(kind))
+		switch kind {
+		case "oshp", "mntat", "mntbelow", "sub", "cache", "tar":
+			cfg.MkDirFS = fsad.ComposedDir(kind)
+			if kind == "mntbelow" {
+				cfg.MountChild = fsad.ChildName(2)
+			}
+		default:
+			cfg.MkDirFS = fsad.Writable(mkfs(kind))
+		}
 		if kind == "osref" {
 			cfg.Reference = true
 			cfg.PropList, cfg.PropClosed, cfg.PropIO = "SPEC", "SPEC", "SPEC"
